@@ -1306,7 +1306,23 @@ def main(argv: List[str]) -> int:
             task_by_seed[t["run_seed"]] = t
             yield t
 
+    sites: Dict[str, int] = {}
+    det_keep = set(run_seeds[: cfg["det"] * 2])
+    counters = {"buggify_runs": 0}
+
     def on_result(i: int, res: Dict[str, Any]) -> bool:
+        t_ = task_by_seed.get(res.get("run_seed"))
+        if t_ is not None:
+            counters["buggify_runs"] += 1 if t_.get("buggify") else 0
+            if not res.get("violations") and res.get("run_seed") not in det_keep and len(results) > 8:
+                task_by_seed.pop(res["run_seed"], None)  # not needed again
+        # keep the parent small: 40 000+ results with full decision traces and histories are tens of GB
+        for k_, v_ in (res.get("switch_sites") or {}).items():
+            sites[k_] = sites.get(k_, 0) + v_
+        res["first_decisions"] = (res.get("decisions") or [])[:12]
+        if not res.get("violations"):
+            for heavy in ("decisions", "history", "switch_sites"):
+                res.pop(heavy, None)
         results.append(res)
         if res.get("harness"):
             rep.harness_error(f"run_seed={res.get('run_seed')}: {res['harness']}")
@@ -1335,7 +1351,7 @@ def main(argv: List[str]) -> int:
     fresh_checked = 0
     if not a.no_selftest and ok_results and not rep.harness_errors:
         by_seed = {r["run_seed"]: r for r in ok_results}
-        sample = [s for s in run_seeds if s in by_seed][: cfg["det"]]
+        sample = [s for s in run_seeds if s in by_seed and s in task_by_seed][: cfg["det"]]
         try:
             again = core.run_pool(
                 worker_run, [task_by_seed[s] for s in sample], workers=max(2, core.n_workers() // 3), per_task_timeout=600.0
@@ -1413,12 +1429,9 @@ def main(argv: List[str]) -> int:
     multi = [r for r in ok_results if r.get("n", 1) >= 2 and r.get("switches", 0) >= 1]
     distinct = len({r["sched_digest"] for r in multi})
     probes: Dict[str, int] = {}
-    sites: Dict[str, int] = {}
     for r in ok_results:
         for k, v in r.get("probes", {}).items():
             probes[k] = probes.get(k, 0) + (1 if v else 0)
-        for k, v in r.get("switch_sites", {}).items():
-            sites[k] = sites.get(k, 0) + v
     hooks_lines = sorted({int(k.split(":")[1]) for k in sites if k.startswith("_hooks.py:")})
     shapes: Dict[str, int] = {}
     pols: Dict[str, int] = {}
@@ -1431,7 +1444,7 @@ def main(argv: List[str]) -> int:
         if t:
             samples.append({"run_seed": t["run_seed"], "shape": t["shape"], "policy": t["policy"], "buggify": t["buggify"],
                             "start_after": t["start_after"], "threads": t["threads"], "steps": r["steps"], "switches": r["switches"],
-                            "first_decisions": r["decisions"][:12]})
+                            "first_decisions": r.get("first_decisions")})
     coverage = {
         "evaluations": len(ok_results),
         "distinct_nontrivial": distinct,
@@ -1454,7 +1467,7 @@ def main(argv: List[str]) -> int:
         "faults_fired": {
             "preemptions_injected": sum(r.get("switches", 0) for r in ok_results),
             "late_start": sum(1 for r in ok_results if r.get("probes", {}).get("late_joiner")),
-            "runs_with_buggify_sites": sum(1 for r in ok_results if task_by_seed.get(r["run_seed"], {}).get("buggify")),
+            "runs_with_buggify_sites": counters["buggify_runs"],
         },
         "probes_runs_hit": probes,
         "shapes": shapes,
